@@ -9,7 +9,7 @@
                     ONNX graph == JAX index semantics, all ranks and extents;
      struct_fragment_correct   every jaxpr over a registry of such kernels lowers to a graph computing the JAX value. *)
 From Coq Require Import String List Bool Arith Lia ZArith PeanoNat.
-From J2O Require Import PyLib Dtype Tensor Batch Reshape Graph Lowering LoweringSem OnnxInt Kernels Lift LiftProg.
+From J2O Require Import PyLib Dtype Tensor Batch Reshape Graph Lowering LoweringSem OnnxInt Kernels Lift LiftProg LiftReduce.
 Import ListNotations.
 
 (* ================================================================ abstract kernels *)
@@ -272,6 +272,124 @@ Proof.
   rewrite <- (projsel_nth _ 0 bd (shape X) target idx H) by (simpl; lia). reflexivity.
 Qed.
 
+(* ---- integer reductions over axes (LiftReduce): the reducing functions on the row-major list of reduced elements *)
+Inductive rkind := RSum | RProd | RMax | RMin.
+Definition lz (l : list sval) : list Z := map (prj SZ) l.
+Definition lb (l : list sval) : list bool := map (prj SB) l.
+Definition sred_onnx (rk : rkind) (sb : ity) (l : list sval) : sval :=
+  match rk with
+  | RSum => VZ (o_reduce_sum sb (lz l))
+  | RProd => VZ (o_reduce_prod sb (lz l))
+  | RMax => VZ (match o_reduce_max (lz l) with Some v => v | None => 0%Z end)
+  | RMin => VZ (match o_reduce_min (lz l) with Some v => v | None => 0%Z end)
+  end.
+Definition sred_jax (rk : rkind) (sb : ity) (l : list sval) : sval :=
+  match rk with
+  | RSum => VZ (jax_reduce_sum sb (lz l))
+  | RProd => VZ (jax_reduce_prod sb (lz l))
+  | RMax => VZ (match jax_reduce_max (lz l) with Some v => v | None => 0%Z end)
+  | RMin => VZ (match jax_reduce_min (lz l) with Some v => v | None => 0%Z end)
+  end.
+(* max / min of an empty set is undefined in both systems; sums / products in a type of width 0 are meaningless *)
+Definition red_ok (rk : rkind) (sb : ity) (mask : list bool) (s : list nat) : bool :=
+  Nat.eqb (length mask) (length s) &&
+  match rk with
+  | RSum => (0 <? snd sb)%Z
+  | RProd => (1 <? snd sb)%Z
+  | RMax | RMin => match all_idx (red_shape mask s) with [] => false | _ => true end
+  end.
+Definition rname (rk : rkind) : string :=
+  match rk with RSum => "ReduceSum" | RProd => "ReduceProd" | RMax => "ReduceMax" | RMin => "ReduceMin" end%string.
+Definition rkind_of (op : string) : option rkind :=
+  if String.eqb op "ReduceSum" then Some RSum else if String.eqb op "ReduceProd" then Some RProd
+  else if String.eqb op "ReduceMax" then Some RMax else if String.eqb op "ReduceMin" then Some RMin else None.
+Definition enc_mask (mask : list bool) : list nat := map (fun b : bool => if b then 1 else 0) mask.
+Definition dec_mask (l : list nat) : list bool := map (Nat.eqb 1) l.
+Lemma dec_enc_mask mask : dec_mask (enc_mask mask) = mask.
+Proof. unfold dec_mask, enc_mask. rewrite map_map. rewrite <- (map_id mask) at 2. apply map_ext. now intros []. Qed.
+Definition enc_red (sb : ity) (mask : list bool) : list nat := enc_sb sb ++ enc_mask mask.
+Lemma sred_correct rk sb mask s l : red_ok rk sb mask s = true -> sred_onnx rk sb l = sred_jax rk sb l.
+Proof.
+  unfold red_ok. intro H. apply andb_prop in H as [_ H]. destruct rk; simpl.
+  - apply Z.ltb_lt in H. now rewrite reduce_sum_correct.
+  - apply Z.ltb_lt in H. now rewrite reduce_prod_correct.
+  - reflexivity.
+  - reflexivity.
+Qed.
+
+(* ================================================================ concatenate and (strided) slice *)
+Fixpoint set_nth (n : nat) (v : nat) (l : list nat) : list nat :=
+  match l, n with [] , _ => [] | _ :: r, 0 => v :: r | x :: r, S n' => x :: set_nth n' v r end.
+(* lax.concatenate / ONNX Concat along [axis]: the pieces laid one after the other *)
+Fixpoint cat_at {A} (axis : nat) (Xs : list (tensor A)) (d : A) (idx : list nat) : A :=
+  match Xs with
+  | [] => d
+  | X :: r => let i := nth axis idx 0 in let n := nth axis (shape X) 0 in
+              if i <? n then at_ X idx else cat_at axis r d (set_nth axis (i - n) idx)
+  end.
+Definition cat_shape (axis : nat) (shapes : list (list nat)) : list nat :=
+  match shapes with [] => [] | s :: _ => set_nth axis (fold_right (fun t acc => nth axis t 0 + acc) 0 shapes) s end.
+Definition tconcat {A} (axis : nat) (Xs : list (tensor A)) (d : A) : tensor A :=
+  mkT (cat_shape axis (map (@shape A) Xs)) (cat_at axis Xs d).
+(* the pieces agree off the axis *)
+Definition cat_okb (axis : nat) (shapes : list (list nat)) : bool :=
+  match shapes with
+  | [] => false
+  | s :: r => (axis <? length s) && forallb (fun t => nat_list_eqb (set_nth axis 0 t) (set_nth axis 0 s)) r
+  end.
+Definition jax_concat_sem (axis n : nat) (Xs : list cten) : option cten :=
+  if Nat.eqb (length Xs) n && cat_okb axis (map c_shape Xs) then Some (tcanon (tconcat axis (map decanon Xs) sv0)) else None.
+
+(* lax.slice(start, limit, strides): out[idx] = x[start + idx * stride], extent ceil((limit - start) / stride) *)
+Fixpoint slice_idx (starts strides idx : list nat) : list nat :=
+  match starts, strides, idx with
+  | s :: sr, t :: tr, i :: ir => (s + i * t) :: slice_idx sr tr ir
+  | _, _, _ => []
+  end.
+Definition cdiv (a b : nat) : nat := (a + b - 1) / b.
+Fixpoint jax_slice_shape (starts limits strides : list nat) : list nat :=
+  match starts, limits, strides with
+  | s :: sr, l :: lr, t :: tr => cdiv (l - s) t :: jax_slice_shape sr lr tr
+  | _, _, _ => []
+  end.
+Definition jax_slice {A} (starts limits strides : list nat) (X : tensor A) : tensor A :=
+  mkT (jax_slice_shape starts limits strides) (fun idx => at_ X (slice_idx starts strides idx)).
+(* ONNX Slice(starts, ends, axes = all, steps > 0): starts and ends are first clamped into [0, dim] *)
+Fixpoint onnx_slice_shape (dims starts ends steps : list nat) : list nat :=
+  match dims, starts, ends, steps with
+  | d :: dr, s :: sr, e :: er, t :: tr => cdiv (Nat.min e d - Nat.min s d) t :: onnx_slice_shape dr sr er tr
+  | _, _, _, _ => []
+  end.
+Fixpoint onnx_slice_starts (dims starts : list nat) : list nat :=
+  match dims, starts with d :: dr, s :: sr => Nat.min s d :: onnx_slice_starts dr sr | _, _ => [] end.
+Definition onnx_slice {A} (starts ends steps : list nat) (X : tensor A) : tensor A :=
+  mkT (onnx_slice_shape (shape X) starts ends steps) (fun idx => at_ X (slice_idx (onnx_slice_starts (shape X) starts) steps idx)).
+(* JAX's precondition: 0 <= start <= limit <= dim, stride >= 1, one entry per axis *)
+Fixpoint slice_okb (dims starts limits strides : list nat) : bool :=
+  match dims, starts, limits, strides with
+  | [], [], [], [] => true
+  | d :: dr, s :: sr, l :: lr, t :: tr => (s <=? l) && (l <=? d) && (1 <=? t) && slice_okb dr sr lr tr
+  | _, _, _, _ => false
+  end.
+Theorem slice_correct {A} (starts limits strides : list nat) (X : tensor A) :
+  slice_okb (shape X) starts limits strides = true ->
+  onnx_slice starts limits strides X = jax_slice starts limits strides X.
+Proof.
+  intro H. unfold onnx_slice, jax_slice.
+  assert (E : onnx_slice_shape (shape X) starts limits strides = jax_slice_shape starts limits strides
+              /\ onnx_slice_starts (shape X) starts = starts).
+  { revert starts limits strides H. induction (shape X) as [|d dr IH]; intros [|s sr] [|l lr] [|t tr] H; simpl in H; try discriminate; [now split|].
+    apply andb_prop in H as [H H4]. apply andb_prop in H as [H H3]. apply andb_prop in H as [H1 H2].
+    apply Nat.leb_le in H1, H2. destruct (IH sr lr tr H4) as [E1 E2]. simpl. rewrite E1, E2.
+    rewrite (Nat.min_l l d), (Nat.min_l s d) by lia. now split. }
+  destruct E as [-> ->]. reflexivity.
+Qed.
+Definition jax_slice_sem (starts limits strides : list nat) (Xs : list cten) : option cten :=
+  match Xs with
+  | [a] => if slice_okb (c_shape a) starts limits strides then Some (tcanon (jax_slice starts limits strides (decanon a))) else None
+  | _ => None
+  end.
+
 (* ================================================================ node semantics with the structural operators *)
 Local Open Scope string_scope.
 (* static shapes: the target shape / axes / permutation (an initializer input in ONNX) is the node's payload *)
@@ -295,7 +413,28 @@ Definition ssem (op : string) (ats : list nat) (vals : list cten) : option (list
     match vals with
     | [a] => if is_permb ats && Nat.eqb (length ats) (length (c_shape a)) then Some [tcanon (transpose ats (decanon a))] else None
     | _ => None end
-  else kgsem cdummy op ats vals.
+  else if String.eqb op "Concat" then                     (* payload: the axis *)
+    match ats with
+    | [axis] => if cat_okb axis (map c_shape vals) then Some [tcanon (tconcat axis (map decanon vals) sv0)] else None
+    | _ => None end
+  else if String.eqb op "Slice" then                      (* payload: n, then n starts, n ends, n steps (all axes, in order) *)
+    match ats, vals with
+    | n :: rest, [a] =>
+        let starts := firstn n rest in let ends := firstn n (skipn n rest) in let steps := skipn n (skipn n rest) in
+        if Nat.eqb (length (c_shape a)) n && Nat.eqb (length starts) n && Nat.eqb (length ends) n && Nat.eqb (length steps) n
+           && forallb (fun t => Nat.leb 1 t) steps
+        then Some [tcanon (onnx_slice starts ends steps (decanon a))] else None
+    | _, _ => None end
+  else match rkind_of op with
+       | Some rk =>                                    (* Reduce* with keepdims = 0; payload: element type, axes mask *)
+           match ats, vals with
+           | sg :: b :: m01, [a] =>
+               let sb := dec_sb sg b in let mask := dec_mask m01 in
+               if red_ok rk sb mask (c_shape a) then Some [tcanon (treduce (sred_onnx rk sb) mask (decanon a))] else None
+           | _, _ => None
+           end
+       | None => kgsem cdummy op ats vals
+       end.
 Lemma ssem_op o vals : osb_ok o -> ssem (oname o) (enc_op o) vals = gsem_op o vals.
 Proof. intro H. unfold ssem. rewrite <- (kgsem_op cdummy o vals H). destruct o; reflexivity. Qed.
 Lemma ssem_const c : ssem "Constant" (enc_const c) [] = Some [tcanon (tscalar c)].
@@ -504,6 +643,191 @@ Qed.
 Lemma full_is_broadcast s (c : sval) : teq (tfull s c) (jax_broadcast_in_dim s [] (tscalar c)).
 Proof. split; reflexivity. Qed.
 
+(* ================================================================ integer reductions over axes as kernels *)
+Lemma ssem_reduce rk sb mask a : (0 <= snd sb)%Z ->
+  ssem (rname rk) (enc_red sb mask) [a] =
+  if red_ok rk sb mask (c_shape a) then Some [tcanon (treduce (sred_onnx rk sb) mask (decanon a))] else None.
+Proof.
+  intro Hb. unfold ssem, enc_red, enc_sb. destruct rk; simpl; rewrite dec_enc_sb, dec_enc_mask by exact Hb; reflexivity.
+Qed.
+Definition jax_reduce_sem (rk : rkind) (sb : ity) (mask : list bool) (Xs : list cten) : option cten :=
+  match Xs with
+  | [a] => if (0 <=? snd sb)%Z && red_ok rk sb mask (c_shape a)
+           then Some (tcanon (treduce (sred_jax rk sb) mask (decanon a))) else None
+  | _ => None
+  end.
+(* reduce_sum / reduce_prod / reduce_max / reduce_min (and jnp.sum / prod / max / min): one Reduce* node, keepdims = 0 *)
+Definition gk_reduce (rk : rkind) (sb : ity) (mask : list bool) : gkern :=
+  gk_node 1 (rname rk) (enc_red sb mask) (jax_reduce_sem rk sb mask).
+Lemma gk_reduce_ok rk sb mask : sgkern_ok (gk_reduce rk sb mask).
+Proof.
+  apply gk_node_ok. intros [|a [|? ?]] out Hl H; try discriminate. unfold jax_reduce_sem in H.
+  destruct ((0 <=? snd sb)%Z && red_ok rk sb mask (c_shape a)) eqn:E; [|discriminate]. injection H as <-.
+  apply andb_prop in E as [Hb Hok]. apply Z.leb_le in Hb. rewrite ssem_reduce by exact Hb. rewrite Hok. do 2 f_equal.
+  apply canon_teq. apply treduce_ext. intros idx _. now apply (sred_correct rk sb mask (c_shape a)).
+Qed.
+
+(* a reduction between two elementwise casts:  o2 (Reduce (o1 x))  — how ReduceSum on uint8/16/32 and reduce_and / reduce_or
+   on bool are lowered *)
+Lemma eval_cons_s (n : node) (r : list node) (e : env cten) :
+  sgeval (n :: r) e = match step cten ssem e n with Some e' => sgeval r e' | None => None end.
+Proof. reflexivity. Qed.
+Lemma assoc_combine_in : forall (keys : list (list nat)) (vals : list sval) k,
+  In k keys -> length keys = length vals -> In (assoc k (combine keys vals)) vals.
+Proof.
+  induction keys as [|k0 keys IH]; intros [|v vals] k Hin Hl; simpl in *; try discriminate; [contradiction|].
+  destruct (nat_list_eqb k0 k) eqn:E; [now left|]. right. apply IH; [|lia].
+  destruct Hin as [->|Hin]; [rewrite nat_list_eqb_refl in E; discriminate | exact Hin].
+Qed.
+Definition cten_wf (a : cten) : bool := Nat.eqb (length (c_data a)) (length (all_idx (c_shape a))).
+Lemma decanon_at_in a j : cten_wf a = true -> in_range (c_shape a) j -> In (at_ (decanon a) j) (c_data a).
+Proof.
+  intros Hwf Hj. apply Nat.eqb_eq in Hwf. simpl. apply assoc_combine_in; [now apply all_idx_complete | now symmetry].
+Qed.
+(* P: a condition on the ELEMENTS of the operand (e.g. "lies in its integer type"), checked on the whole tensor *)
+Definition gk_crc (o1 : oop) (rk : rkind) (sbr : ity) (o2 : oop) (mask : list bool)
+                  (J : list sval -> sval) (D : list nat -> bool) (P : sval -> bool) : gkern :=
+  mkG 1 (fun args next =>
+           ([mkNode (oname o1) (enc_op o1) args [] [next];
+             mkNode (rname rk) (enc_red sbr mask) [next] [] [S next];
+             mkNode (oname o2) (enc_op o2) [S next] [] [S (S next)]], S (S next), S (S (S next))))
+      (fun Xs => match Xs with
+                 | [a] => if red_ok rk sbr mask (c_shape a) && D (c_shape a) && cten_wf a && forallb P (c_data a)
+                          then Some (tcanon (treduce J mask (decanon a))) else None
+                 | _ => None end).
+Lemma gk_crc_ok o1 rk sbr o2 mask J D P :
+  oarity o1 = 1 -> oarity o2 = 1 -> osb_ok o1 -> osb_ok o2 -> (0 <= snd sbr)%Z ->
+  (forall s l, red_ok rk sbr mask s = true -> D s = true -> length l = length (all_idx (red_shape mask s)) ->
+               Forall (fun v => P v = true) l ->
+               sem1 o2 (sred_onnx rk sbr (map (sem1 o1) l)) = J l) ->
+  sgkern_ok (gk_crc o1 rk sbr o2 mask J D P).
+Proof.
+  intros Ha1 Ha2 Hs1 Hs2 Hb Hlaw args next nodes res next' g Xs out Hem Hl Hla Hargs Hfr Hf. simpl in *. injection Hem as <- <- <-.
+  destruct Xs as [|a [|? ?]]; try discriminate. destruct args as [|x [|? ?]]; try discriminate.
+  destruct (red_ok rk sbr mask (c_shape a) && D (c_shape a) && cten_wf a && forallb P (c_data a)) eqn:Ec; [|discriminate]. injection Hf as <-.
+  apply andb_prop in Ec as [Ec HP]. apply andb_prop in Ec as [Ec Hwf]. apply andb_prop in Ec as [Hok HD].
+  rewrite forallb_forall in HP.
+  destruct (Hargs 0 ltac:(simpl; lia)) as [Hx Hgx]. simpl in Hx, Hgx.
+  set (T1 := tcanon (tmap (sem1 o1) (decanon a))).
+  set (T2 := tcanon (treduce (sred_onnx rk sbr) mask (decanon T1))).
+  set (T3 := tcanon (tmap (sem1 o2) (decanon T2))).
+  assert (Hlen : length mask = length (c_shape a)).
+  { unfold red_ok in Hok. apply andb_prop in Hok as [Hm _]. now apply Nat.eqb_eq in Hm. }
+  assert (HT3 : T3 = tcanon (treduce J mask (decanon a))).
+  { unfold T3. apply canon_teq.
+    eapply teq_trans; [apply tmap_teq; unfold T2; apply decanon_canon|].
+    eapply teq_trans; [apply tmap_teq; apply treduce_teq; [unfold T1; apply decanon_canon | exact Hlen]|].
+    split; [reflexivity|]. intros idx Hi. cbn [tmap treduce at_ shape] in *.
+    rewrite red_elems_tmap. apply (Hlaw (c_shape a)); [exact Hok | exact HD | unfold red_elems; now rewrite map_length|].
+    apply Forall_forall. intros v Hv. unfold red_elems in Hv. apply in_map_iff in Hv as (r & <- & Hr). apply HP.
+    apply decanon_at_in; [exact Hwf|]. apply merge_in_range; [exact Hlen | exact Hi | now apply all_idx_in_range]. }
+  exists (upd cten (upd cten (upd cten g next T1) (S next) T2) (S (S next)) T3). split.
+  - rewrite eval_cons_s.
+    match goal with |- match ?St with _ => _ end = _ =>
+      replace St with (Some (upd cten g next T1)) by (symmetry; exact (step_node1 ssem ssem_op g o1 x a next Hs1 Ha1 Hgx)) end.
+    assert (Hst2 : step cten ssem (upd cten g next T1) (mkNode (rname rk) (enc_red sbr mask) [next] [] [S next])
+                   = Some (upd cten (upd cten g next T1) (S next) T2)).
+    { unfold step, n_uses; simpl. rewrite upd_same. rewrite ssem_reduce by exact Hb.
+      change (c_shape T1) with (c_shape a). rewrite Hok. reflexivity. }
+    rewrite eval_cons_s.
+    match goal with |- match ?St with _ => _ end = _ => replace St with (Some (upd cten (upd cten g next T1) (S next) T2)) by (symmetry; exact Hst2) end.
+    rewrite eval_cons_s.
+    match goal with |- match ?St with _ => _ end = _ =>
+      replace St with (Some (upd cten (upd cten (upd cten g next T1) (S next) T2) (S (S next)) T3))
+        by (symmetry; apply (step_node1 ssem ssem_op); [exact Hs2 | exact Ha2 | apply upd_same]) end.
+    reflexivity.
+  - split; [lia|]. split; [intros m Hm; rewrite !upd_other by lia; reflexivity|].
+    split; [intros m Hm; rewrite !upd_other by lia; apply Hfr; lia|].
+    split; [rewrite upd_same; now rewrite HT3|]. intro y. simpl. lia.
+Qed.
+
+Definition I64r : ity := (true, 64%Z).
+Lemma prj_VZ z : prj SZ (VZ z) = z. Proof. reflexivity. Qed.
+Lemma prj_VB b : prj SB (VB b) = b. Proof. reflexivity. Qed.
+(* jnp.sum / reduce_sum on uint8 / uint16 / uint32: Cast(int64) -> ReduceSum -> Cast back *)
+Definition gk_reduce_sum_via64 (sb : ity) (mask : list bool) : gkern :=
+  gk_crc (OCast I64r) RSum I64r (OCast sb) mask (sred_jax RSum sb) (fun _ => (0 <? snd sb)%Z && (snd sb <=? 64)%Z) (fun _ => true).
+Lemma gk_reduce_sum_via64_ok sb mask : (0 <= snd sb)%Z -> sgkern_ok (gk_reduce_sum_via64 sb mask).
+Proof.
+  intro Hb0. apply gk_crc_ok; try reflexivity; try exact Hb0; try (simpl; lia).
+  intros s l _ HD _ _. apply andb_prop in HD as [H1 H2]. apply Z.ltb_lt in H1. apply Z.leb_le in H2.
+  cbn [sem1 sred_onnx sred_jax]. unfold lift1, lz. change (inj SZ) with VZ. rewrite prj_VZ, map_map. f_equal.
+  rewrite <- (reduce_sum_via64_correct sb (map (prj SZ) l)) by lia. unfold lowered_reduce_sum_via64. rewrite map_map. reflexivity.
+Qed.
+Definition gk_reduce_prod_via64 (sb : ity) (mask : list bool) : gkern :=
+  gk_crc (OCast I64r) RProd I64r (OCast sb) mask (sred_jax RProd sb) (fun _ => (0 <? snd sb)%Z && (snd sb <=? 64)%Z) (fun _ => true).
+Lemma gk_reduce_prod_via64_ok sb mask : (0 <= snd sb)%Z -> sgkern_ok (gk_reduce_prod_via64 sb mask).
+Proof.
+  intro Hb0. apply gk_crc_ok; try reflexivity; try exact Hb0; try (simpl; lia).
+  intros s l _ HD _ _. apply andb_prop in HD as [H1 H2]. apply Z.ltb_lt in H1. apply Z.leb_le in H2.
+  cbn [sem1 sred_onnx sred_jax]. unfold lift1, lz. change (inj SZ) with VZ. rewrite prj_VZ, map_map. f_equal.
+  rewrite <- (reduce_prod_via64_correct sb (map (prj SZ) l)) by lia. unfold lowered_reduce_prod_via64. rewrite map_map. reflexivity.
+Qed.
+(* reduce_and on bool: Cast(int64) -> ReduceMin -> Cast(bool) *)
+Definition gk_reduce_and (mask : list bool) : gkern :=
+  gk_crc (OCastOfBool I64r) RMin I64r OCastToBool mask (fun l => VB (jax_reduce_and (lb l))) (fun _ => true) (fun _ => true).
+Lemma gk_reduce_and_ok mask : sgkern_ok (gk_reduce_and mask).
+Proof.
+  apply gk_crc_ok; try reflexivity; try exact I; try (simpl; lia).
+  intros s l Hok _ Hlen _. unfold red_ok in Hok. apply andb_prop in Hok as [_ Hne].
+  assert (Hl : lb l <> []).
+  { unfold lb. destruct l; [|discriminate]. simpl in Hlen. destruct (all_idx (red_shape mask s)); [discriminate | discriminate]. }
+  pose proof (reduce_and_correct (lb l) Hl) as Hc. unfold lowered_reduce_and in Hc.
+  cbn [sem1 sred_onnx]. unfold lift1, lz, lb in *. change (inj SZ) with VZ. change (inj SB) with VB. rewrite prj_VZ, map_map.
+  rewrite map_map in Hc. change I64' with I64r in Hc.
+  change (fun x : sval => prj SZ (VZ (o_cast_of_bool I64r (prj SB x)))) with (fun x : sval => o_cast_of_bool I64r (prj SB x)).
+  match goal with |- context [o_reduce_min ?L] =>
+    match type of Hc with context [o_reduce_min ?L'] => change L' with L in Hc end; destruct (o_reduce_min L) as [m|]; [|discriminate] end.
+  injection Hc as Hc. now rewrite Hc.
+Qed.
+(* reduce_or on bool: Cast(int64) -> ReduceSum -> Cast(bool); the number of reduced elements must fit int64 *)
+Definition gk_reduce_or (mask : list bool) : gkern :=
+  gk_crc (OCastOfBool I64r) RSum I64r OCastToBool mask (fun l => VB (jax_reduce_or (lb l)))
+         (fun s => (Z.of_nat (length (all_idx (red_shape mask s))) <? 2 ^ 63)%Z) (fun _ => true).
+Lemma gk_reduce_or_ok mask : sgkern_ok (gk_reduce_or mask).
+Proof.
+  apply gk_crc_ok; try reflexivity; try exact I; try (simpl; lia).
+  intros s l _ HD Hlen _. apply Z.ltb_lt in HD. rewrite <- Hlen in HD.
+  cbn [sem1 sred_onnx]. unfold lift1, lz, lb. change (inj SZ) with VZ. change (inj SB) with VB. rewrite prj_VZ, map_map. f_equal.
+  rewrite <- (reduce_or_correct (map (prj SB) l)) by (now rewrite map_length). unfold lowered_reduce_or. rewrite map_map. reflexivity.
+Qed.
+
+(* ================================================================ concatenate / slice as kernels *)
+Definition gk_concat (n axis : nat) : gkern := gk_node n "Concat"%string [axis] (jax_concat_sem axis n).
+Lemma gk_concat_ok n axis : sgkern_ok (gk_concat n axis).
+Proof.
+  apply gk_node_ok. intros Xs out Hl H. unfold jax_concat_sem in H.
+  destruct (Nat.eqb (length Xs) n && cat_okb axis (map c_shape Xs)) eqn:E; [|discriminate]. injection H as <-.
+  apply andb_prop in E as [_ E]. unfold ssem. simpl. now rewrite E.
+Qed.
+Definition enc_slice (starts limits strides : list nat) : list nat := length starts :: starts ++ limits ++ strides.
+Definition gk_slice (starts limits strides : list nat) : gkern :=
+  gk_node 1 "Slice"%string (enc_slice starts limits strides) (jax_slice_sem starts limits strides).
+Lemma slice_okb_lengths : forall dims starts limits strides, slice_okb dims starts limits strides = true ->
+  length starts = length dims /\ length limits = length dims /\ length strides = length dims /\ forallb (fun t => 1 <=? t) strides = true.
+Proof.
+  induction dims as [|d dr IH]; intros [|s sr] [|l lr] [|t tr] H; simpl in H; try discriminate; [now repeat split|].
+  apply andb_prop in H as [H H4]. apply andb_prop in H as [H H3]. destruct (IH sr lr tr H4) as (E1 & E2 & E3 & E4).
+  cbn [length forallb]. rewrite E1, E2, E3, E4. split; [reflexivity|]. split; [reflexivity|]. split; [reflexivity|].
+  apply andb_true_intro. split; [exact H3 | reflexivity].
+Qed.
+Lemma slice_decode (starts limits strides : list nat) : length limits = length starts ->
+  firstn (length starts) (skipn (length starts) (starts ++ limits ++ strides)) = limits /\
+  skipn (length starts) (skipn (length starts) (starts ++ limits ++ strides)) = strides.
+Proof. intro E. rewrite skipn_length_app. rewrite <- E. rewrite firstn_length_app, skipn_length_app. now split. Qed.
+Lemma gk_slice_ok starts limits strides : sgkern_ok (gk_slice starts limits strides).
+Proof.
+  apply gk_node_ok. intros [|a [|? ?]] out Hl H; try discriminate. unfold jax_slice_sem in H.
+  destruct (slice_okb (c_shape a) starts limits strides) eqn:E; [|discriminate]. injection H as <-.
+  destruct (slice_okb_lengths _ _ _ _ E) as (E1 & E2 & E3 & E4).
+  unfold ssem, enc_slice. simpl.
+  destruct (slice_decode starts limits strides ltac:(congruence)) as [-> ->].
+  rewrite firstn_length_app, E2, E3, <- E1, !Nat.eqb_refl.
+  match goal with |- context [forallb ?f strides] => replace (forallb f strides) with true by (symmetry; exact E4) end.
+  simpl. do 2 f_equal.
+  rewrite <- (slice_correct starts limits strides (decanon a)) by exact E. reflexivity.
+Qed.
+
 (* ================================================================ the table of a traced program *)
 (* what one equation of a real jaxpr is: primitive + static parameters (+ the operand's aval where the plugin reads it) *)
 Inductive gspec :=
@@ -513,7 +837,13 @@ Inductive gspec :=
 | GReshape (new : list nat)
 | GBcast (opshape target bd : list nat)
 | GSqueeze (dims : list nat)
-| GTranspose (perm : list nat).
+| GTranspose (perm : list nat)
+| GReduce (rk : rkind) (sb : ity) (mask : list bool)     (* reduce_sum / prod / max / min over the masked axes *)
+| GReduceSum64 (sb : ity) (mask : list bool)             (* reduce_sum on uint8 / uint16 / uint32 *)
+| GReduceProd64 (sb : ity) (mask : list bool)            (* reduce_prod through an int64 work type *)
+| GReduceAnd (mask : list bool) | GReduceOr (mask : list bool)
+| GConcat (n axis : nat)
+| GSlice (starts limits strides : list nat).
 Definition gk_of (s : gspec) : option gkern :=
   match s with
   | GElem nm => option_map gk_elem (exact_table nm)
@@ -523,6 +853,13 @@ Definition gk_of (s : gspec) : option gkern :=
   | GBcast o t b => Some (gk_bcast o t b)
   | GSqueeze d => Some (gk_squeeze d)
   | GTranspose p => Some (gk_transpose p)
+  | GReduce rk sb m => Some (gk_reduce rk sb m)
+  | GReduceSum64 sb m => if (0 <=? snd sb)%Z then Some (gk_reduce_sum_via64 sb m) else None
+  | GReduceProd64 sb m => if (0 <=? snd sb)%Z then Some (gk_reduce_prod_via64 sb m) else None
+  | GReduceAnd m => Some (gk_reduce_and m)
+  | GReduceOr m => Some (gk_reduce_or m)
+  | GConcat n ax => Some (gk_concat n ax)
+  | GSlice st li sr => Some (gk_slice st li sr)
   end.
 Lemma gk_of_ok s k : gk_of s = Some k -> sgkern_ok k.
 Proof.
@@ -534,6 +871,13 @@ Proof.
   - apply gk_bcast_ok.
   - apply gk_squeeze_ok.
   - apply gk_transpose_ok.
+  - apply gk_reduce_ok.
+  - destruct (0 <=? snd sb)%Z eqn:E; [|discriminate]. injection H as <-. apply gk_reduce_sum_via64_ok. now apply Z.leb_le.
+  - destruct (0 <=? snd sb)%Z eqn:E; [|discriminate]. injection H as <-. apply gk_reduce_prod_via64_ok. now apply Z.leb_le.
+  - apply gk_reduce_and_ok.
+  - apply gk_reduce_or_ok.
+  - apply gk_concat_ok.
+  - apply gk_slice_ok.
 Qed.
 Fixpoint slookup (p : string) (l : list (string * gspec)) : option gspec :=
   match l with [] => None | (q, s) :: r => if String.eqb p q then Some s else slookup p r end.
@@ -577,7 +921,10 @@ Inductive rtree :=
 | RIn (i : nat) | RConst (c : sval) | RFull (s : list nat) (c : sval)
 | ROp1 (o : oop) (a : rtree) | ROp2 (o : oop) (a b : rtree) | ROp3 (o : oop) (a b c : rtree)
 | RReshape (s : list nat) (a : rtree) | RExpand (s : list nat) (a : rtree)
-| RSqueeze (axes : list nat) (a : rtree) | RTranspose (perm : list nat) (a : rtree).
+| RSqueeze (axes : list nat) (a : rtree) | RTranspose (perm : list nat) (a : rtree)
+| RReduce (rk : rkind) (sb : ity) (mask : list bool) (a : rtree)
+| RConcat (axis : nat) (kids : list rtree)
+| RSlice (starts ends steps : list nat) (a : rtree).
 Fixpoint gtree_of (t : rtree) : gtree :=
   match t with
   | RIn i => GIn i
@@ -590,6 +937,9 @@ Fixpoint gtree_of (t : rtree) : gtree :=
   | RExpand s a => GNode "Expand" s [gtree_of a]
   | RSqueeze ax a => GNode "Squeeze" ax [gtree_of a]
   | RTranspose p a => GNode "Transpose" p [gtree_of a]
+  | RReduce rk sb m a => GNode (rname rk) (enc_red sb m) [gtree_of a]
+  | RConcat ax l => GNode "Concat" [ax] (map gtree_of l)
+  | RSlice st en sp a => GNode "Slice" (enc_slice st en sp) [gtree_of a]
   end%string.
 
 (* ---- non-vacuity: a traced program    (x * 2 + y) with x : int32[2,3], y : int32[3]
@@ -654,3 +1004,4 @@ Example sx_sp : sp_tree sx_tab sx_prog 2 5 = Some (gtree_of (ROp2 (OAdd I32) (RO
   /\ opt_cten_is (sp_jax sx_tab sx_prog [sx_cx; sx_cy] 5) (mkC [2; 3] (map VZ [4; 15; -23; 0; 5; -1]%Z)) = true
   /\ opt_cten_is (sp_onnx sx_tab sx_prog [sx_cx; sx_cy] 5) (mkC [2; 3] (map VZ [4; 15; -23; 0; 5; -1]%Z)) = true.
 Proof. vm_compute. repeat split. Qed.
+
